@@ -215,6 +215,87 @@ Theorem C04_scan_complete_deferred : forall q t out q', hwf q -> ch_scan q t = (
 Proof. exact ch_scan_complete. Qed.
 Print Assumptions C04_scan_complete_deferred.
 
+(* ================================================================== the channel machine
+   (StartInFlightTimeout / TouchMessage / FinishMessage / RequeueMessage /
+   PutMessageDeferred / processInFlightQueue(t) / processDeferredQueue(t) on one channel,
+   each call one step) -- over EVERY history *)
+
+(* from a fresh channel, whatever the history: no step panics or finds map and heap out of
+   step, both heaps stay well-formed and hold exactly the ids of their maps *)
+Theorem C04_machine_invariant : forall max_msg capacity ops, (1 <= capacity)%nat ->
+  Inv (fst (run max_msg (empty_chan capacity) ops)) /\
+  ~ In Broken (snd (run max_msg (empty_chan capacity) ops)).
+Proof. exact reachable_inv. Qed.
+Print Assumptions C04_machine_invariant.
+
+(* the TOUCH cap as a state invariant: in every reachable state every in-flight deadline is
+   <= its message's deliveryTS + max-msg-timeout (msg_timeouts <= max; any TOUCH pattern) *)
+Theorem C04_touch_cap_every_history : forall max_msg capacity ops, (1 <= capacity)%nat ->
+  Forall (op_ok max_msg) ops -> Capped max_msg (fst (run max_msg (empty_chan capacity) ops)).
+Proof. exact reachable_capped. Qed.
+Print Assumptions C04_touch_cap_every_history.
+
+(* the deadline an operation sets *)
+Theorem C04_start_sets_deadline : forall max_msg c now id cl timeout c', Inv c ->
+  step max_msg c (StartInFlight now id cl timeout) = (c', Ok) ->
+  In ((now + timeout)%Z, id) (keys (arr (c_ifq c'))) /\ In (mkMsg id cl now) (c_inflight c').
+Proof. exact start_sets_deadline. Qed.
+Print Assumptions C04_start_sets_deadline.
+Theorem C04_touch_sets_deadline : forall max_msg c now id cl mt c', Inv c ->
+  step max_msg c (Touch now id cl mt) = (c', Ok) ->
+  exists m, find_msg id (c_inflight c) = Some m /\ m_client m = cl /\
+    In (Z.min (now + mt) (m_delivery m + max_msg), id) (keys (arr (c_ifq c'))) /\
+    In m (c_inflight c').
+Proof. exact touch_sets_deadline. Qed.
+Print Assumptions C04_touch_sets_deadline.
+Theorem C04_putdef_sets_deadline : forall max_msg c now id delay c', Inv c ->
+  step max_msg c (PutDeferred now id delay) = (c', Ok) ->
+  In ((now + delay)%Z, id) (keys (arr (c_dfq c'))).
+Proof. exact putdef_sets_deadline. Qed.
+Print Assumptions C04_putdef_sets_deadline.
+Theorem C04_requeue_sets_deadline : forall max_msg c now id cl delay c', Inv c -> delay <> 0%Z ->
+  step max_msg c (Requeue now id cl delay) = (c', Ok) ->
+  In ((now + delay)%Z, id) (keys (arr (c_dfq c'))).
+Proof. exact requeue_sets_deadline. Qed.
+Print Assumptions C04_requeue_sets_deadline.
+(* ... and it is the only entry for that id *)
+Theorem C04_unique_deadline : forall q p p' id, NoDup (vals q) ->
+  In (p, id) (keys (arr q)) -> In (p', id) (keys (arr q)) -> p = p'.
+Proof. exact unique_deadline. Qed.
+Print Assumptions C04_unique_deadline.
+
+(* never early at the channel, in ANY state: whatever a scan at t releases had deadline <= t *)
+Theorem C04_never_early_channel_inflight : forall f mp q t,
+  let '(_, _, ids) := scan_inflight f mp q t in
+  forall id, In id ids -> exists p, In (p, id) (keys (arr q)) /\ (p <= t)%Z.
+Proof. exact scan_inflight_never_early. Qed.
+Print Assumptions C04_never_early_channel_inflight.
+Theorem C04_never_early_channel_deferred : forall f mp q t,
+  let '(_, _, ids) := scan_deferred f mp q t in
+  forall id, In id ids -> exists p, In (p, id) (keys (arr q)) /\ (p <= t)%Z.
+Proof. exact scan_deferred_never_early. Qed.
+Print Assumptions C04_never_early_channel_deferred.
+
+(* boundedly late at the channel: in every state satisfying the invariant (every reachable
+   state) a scan at t releases EXACTLY the messages whose deadline is <= t; exactly the
+   others stay in flight / deferred *)
+Theorem C04_scan_exact_inflight : forall max_msg c t, Inv c ->
+  exists ids, snd (step max_msg c (ScanInFlight t)) = Ready ids /\
+  let c' := fst (step max_msg c (ScanInFlight t)) in
+  Permutation ids (map snd (filter (due t) (keys (arr (c_ifq c))))) /\
+  Permutation (keys (arr (c_ifq c'))) (filter (not_due t) (keys (arr (c_ifq c)))) /\
+  Permutation (ids_if (c_inflight c')) (map snd (filter (not_due t) (keys (arr (c_ifq c))))).
+Proof. exact scan_inflight_exact. Qed.
+Print Assumptions C04_scan_exact_inflight.
+Theorem C04_scan_exact_deferred : forall max_msg c t, Inv c ->
+  exists ids, snd (step max_msg c (ScanDeferred t)) = Ready ids /\
+  let c' := fst (step max_msg c (ScanDeferred t)) in
+  Permutation ids (map snd (filter (due t) (keys (arr (c_dfq c))))) /\
+  Permutation (keys (arr (c_dfq c'))) (filter (not_due t) (keys (arr (c_dfq c)))) /\
+  Permutation (c_deferred c') (map snd (filter (not_due t) (keys (arr (c_dfq c))))).
+Proof. exact scan_deferred_exact. Qed.
+Print Assumptions C04_scan_exact_deferred.
+
 (* the fuel given to up/down by every caller is never the reason a loop stops *)
 Theorem C04_up_fuel : forall f1 f2 l j, (j <= f1)%nat -> (j <= f2)%nat -> up f1 l j = up f2 l j.
 Proof. exact up_fuel_irrelevant. Qed.
@@ -258,3 +339,13 @@ Example C04_witness_msg_timeout :
   set_msg_timeout nsqd_opt_MaxMsgTimeout nsqd_opt_MsgTimeout 999 = None /\
   set_msg_timeout nsqd_opt_MaxMsgTimeout nsqd_opt_MsgTimeout 0 = Some 60000000000.
 Proof. vm_compute. repeat split; reflexivity. Qed.
+
+(* a history on one channel: two deliveries, a TOUCH that hits the cap, a delayed requeue,
+   a deferred publish; scans on both sides of the deadlines *)
+Example C04_witness_history :
+  snd (run 900 (empty_chan 1)
+        [StartInFlight 1000 7 1 60; StartInFlight 1001 8 2 60; Touch 1890 7 1 60;
+         ScanInFlight 1060; ScanInFlight 1061; Requeue 1062 7 1 5; PutDeferred 1063 9 5;
+         ScanDeferred 1066; ScanDeferred 1068; ScanInFlight 1900; Touch 2000 7 1 60])
+  = [Ok; Ok; Ok; Ready []; Ready [8]; Ok; Ok; Ready []; Ready [7; 9]; Ready []; Err].
+Proof. vm_compute. reflexivity. Qed.
